@@ -109,6 +109,20 @@ def tab_track(t, track, maxwidth):
     from mingus.extra import tablature
     return lines(tablature.from_Track(mk_track(track), maxwidth, None if t is None else mk_tuning(t)))
 
+def tab_track_via(t, track, maxwidth, how):
+    """the tuning is not passed to from_Track but held by the track (Track.tuning / set_tuning) or by its instrument only"""
+    from mingus.extra import tablature
+    from mingus.containers.instrument import Instrument
+    tr = mk_track(track)
+    tun = mk_tuning(t)
+    if how == "track":
+        tr.tuning = tun
+    elif how == "set_tuning":
+        tr.instrument = Instrument(); tr.set_tuning(tun)
+    else:                                   # "instrument": only the instrument knows the tuning
+        tr.instrument = Instrument(); tr.instrument.tuning = tun
+    return lines(tablature.from_Track(tr, maxwidth))
+
 def tab_composition(comp, width):
     from mingus.extra import tablature
     from mingus.containers import Composition
@@ -132,7 +146,7 @@ def tab_composition_safe(comp, width):
         return err_of(e)
 
 IMPL = {"tun.frets": tun_frets, "tun.note": tun_note, "tun.fingering": tun_fingering, "tun.chord": tun_chord,
-        "tun.get": tun_get, "tun.gets": tun_gets, "tab.note": tab_note, "tab.nc": tab_nc, "tab.nc_form": tab_nc_form, "tab.bar": tab_bar,
+        "tun.get": tun_get, "tun.gets": tun_gets, "tab.note": tab_note, "tab.nc": tab_nc, "tab.nc_form": tab_nc_form, "tab.track_via": tab_track_via, "tab.bar": tab_bar,
         "tab.track": tab_track, "tab.composition": tab_composition}
 
 def has_model(c):
@@ -200,6 +214,24 @@ def decode_tab(string_lines, opens):
                 ps.append(opens[string] + int(seg))
         entries.append(sorted(ps))
     return entries, None
+
+def spec_fingers(f):
+    """fingers a fingering needs, by the rule the library documents: going from the HIGHEST string down, the index finger lies
+    across the lowest fretted position and covers every string at that fret until an open string is met (an open string cannot
+    be barred over); every other entry that is not an open string takes a finger of its own"""
+    fretted = [x for x in f if x]
+    if not fretted:
+        return 0
+    low, n, index_used, open_met = min(fretted), 0, False, False
+    for x in reversed(f):
+        if x == 0 and x is not None:
+            open_met = True
+        elif not open_met and x == low:
+            if not index_used:
+                n += 1; index_used = True
+        else:
+            n += 1
+    return n
 
 def check_tab(out_lines, opens, want_entries, header_lines=0):
     """want_entries: list of sorted pitch lists of the sounding entries in order"""
@@ -309,6 +341,16 @@ def cases(tier, rng):
                 nn = [["C", "C#", "D", "Eb", "E", "F", "F#", "G", "Ab", "A", "Bb", "B"][pc], o, 1, 64]
                 out.append(Case("tab.note", [t, nn, 60], tag="tab:note-every-tuning"))
                 out.append(Case("tab.bar", [t, ["C", 4, 4, [[4, [nn]], [4, None], [2, [nn]]]], 60], tag="tab:bar-every-tuning"))
+    # a track drawn on the tuning IT holds (Track.tuning, set_tuning) or that only its instrument holds: no tuning argument
+    def pn(p):
+        o, pc = divmod(p, 12)
+        return [["C", "C#", "D", "Eb", "E", "F", "F#", "G", "Ab", "A", "Bb", "B"][pc], o, 1, 64]
+    bass = ["E-1", "A-1", "D-2", "G-2"]
+    uke = ["G-4", "C-4", "E-4", "A-4"]
+    for tn, lo in ((bass, 28), (uke, 60), (STD, 40)):
+        trk = ["t", None, [["C", 4, 4, [[4, [pn(lo)]], [4, None], [2, [pn(lo + 7)]]]], ["C", 4, 4, [[2, [pn(lo + 5)]], [2, [pn(lo + 9)]]]]]]
+        for how in ("track", "set_tuning", "instrument"):
+            out.append(Case("tab.track_via", [tn, trk, 80, how], tag="tab:track-own-tuning", model=False))
     # entries that cannot be fingered, in every form of the argument: the error must be the finger error
     NAMES12 = ["C", "C#", "D", "Eb", "E", "F", "F#", "G", "Ab", "A", "Bb", "B"]
     def pn(p):
@@ -436,6 +478,8 @@ def oracle(c, obs):
                 return "fingering %s spans %d frets, the limit is %d" % (f, max(nz) - min(nz), md)
             if any(x is not None and not (0 <= x <= mf) for x in f):
                 return "fingering %s uses a fret outside 0..%d" % (f, mf)
+            if spec_fingers(f) > mfing:
+                return "fingering %s needs %d fingers, the limit is %d" % (f, spec_fingers(f), mfing)
     elif fn == "tun.get":
         ins, desc, ns, nc = a
         reg = registry()
@@ -512,9 +556,9 @@ def oracle(c, obs):
         if total != len(multi):
             return "the composition has %d string lines, its tracks drawn alone have %d" % (len(multi), total)
         return None
-    elif fn in ("tab.track", "tab.composition"):
-        if fn == "tab.track":
-            t, track, w = a
+    elif fn in ("tab.track", "tab.track_via", "tab.composition"):
+        if fn in ("tab.track", "tab.track_via"):
+            t, track, w = a[:3]
             tracks = [track]; opens = open_pitches(t or STD); tun = t or STD
         else:
             comp, w = a
@@ -527,7 +571,7 @@ def oracle(c, obs):
         if isinstance(obs, Err):
             return "playable music raised %s" % obs.name
         bw = bar_width(w)
-        if any(not tab_room(None if tun == STD and fn == "tab.composition" else (a[0] if fn == "tab.track" else None), b, bw) for tr in tracks for b in tr[2]):
+        if any(not tab_room(None if tun == STD and fn == "tab.composition" else (a[0] if fn in ("tab.track", "tab.track_via") else None), b, bw) for tr in tracks for b in tr[2]):
             return None
         systems = split_systems(obs, len(opens))
         if systems is None:
@@ -541,7 +585,7 @@ def oracle(c, obs):
             if e is None:
                 return why
             got.append(e)
-        if fn == "tab.track":
+        if fn in ("tab.track", "tab.track_via"):
             flat = [x for s in got for x in s]
             want = [sorted(npitch(x) for x in ns) for ns in sounding[0]]
             if flat != want:
